@@ -148,8 +148,11 @@ impl Property for C09 {
         p.corrupt_pct = 50;
         p.resizer_pct = 70;
         p.operator_pct = 60;
+        // a share of runs under the production wiring: anything the parser tells the screen
+        // outside the recorded listener events is only visible there
+        p.wiring_p_pct = 30;
         let mut t = gen::trace("C09", seed, index, &p);
-        if t.bytes_total() <= 40 && r.chance(1, 4) {
+        if t.wiring == crate::trace::Wiring::Q && t.bytes_total() <= 40 && r.chance(1, 4) {
             // fault-point enumeration: one more resize at EVERY operation boundary
             let g = gen::Geo { cols: t.columns, lines: t.lines };
             let (l, c) = gen::resize_target(&mut r, g, g);
@@ -164,8 +167,15 @@ impl Property for C09 {
             _ => vec![],
         };
         let mut obs = Obs09 { cov, big };
+        if trace.wiring == crate::trace::Wiring::P {
+            let stats = exec::run_p(trace, &mut obs).map(|x| x.0)?;
+            common_cov(cov, &stats);
+            cov.hit("runs_wiring_p");
+            return Ok(());
+        }
         let stats = exec::run_q_inject(trace, &mut obs, &one).map(|x| x.0)?;
         common_cov(cov, &stats);
+        cov.hit("runs_wiring_q");
         if let [u32::MAX, l, c] = trace.extra.as_slice() {
             if *l >= 1 && *c >= 1 {
                 for k in 0..=stats.own_ops.min(48) {
@@ -330,6 +340,14 @@ impl Property for C10 {
         p.kinds = [25, 30, 35, 3, 5, 2];
         p.corrupt_pct = 20;
         let mut t = gen::trace("C10", seed, index, &p);
+        // the embedder may also clear the public dirty set at any time
+        if r.chance(1, 3) {
+            let k = r.range(1, 3);
+            for _ in 0..k {
+                let pos = r.below(t.steps.len() as u64 + 1) as usize;
+                t.steps.insert(pos, Step::Api(Op::ClearDirty));
+            }
+        }
         // insertion points are operation indices; the number of operations is not known at
         // generation time, so draw from a generous range
         let upper = (t.bytes_total() as u64 + t.steps.len() as u64 + 2).min(600);
@@ -504,9 +522,25 @@ impl Property for C15 {
                 h.steps.truncate(pos + 1);
             }
         }
+        // what the program sent last before the reset (from its last ESC on) - programs re-send
+        // their setup right after a reset, and a stream reader that remembers "what I did last"
+        // must not be fooled by the reset in between
+        let mut echo: Option<Vec<u8>> = None;
+        if r.chance(1, 3) {
+            if let Some(Step::Feed(b)) = h.steps.iter().rev().find(|s| matches!(s, Step::Feed(b) if !b.is_empty())) {
+                if let Some(pos) = b.iter().rposition(|x| *x == 0x1b) {
+                    if b.len() - pos <= 24 && b.len() - pos >= 2 {
+                        echo = Some(b[pos..].to_vec());
+                    }
+                }
+            }
+        }
         h.steps.push(ris);
         if r.chance(1, 2) {
             h.steps.push(Step::Apply(100_000));
+        }
+        if let Some(e) = echo {
+            h.steps.push(Step::Feed(e));
         }
         if r.chance(1, 4) {
             // a second RIS with only embedder-side calls in between
@@ -536,11 +570,164 @@ impl Property for C15 {
         common_cov(cov, &stats);
         // every ESC c in the stream must reach the screen as a reset, and nothing else may
         crate::props::steps::parser_path("C15", trace, &delivered, owns_reset, cov)?;
-        Ok(())
+        fresh_parser_twin(trace, cov)
+
     }
     fn owns_panic(&self, op: &str) -> bool {
         op == "reset"
     }
+}
+
+/// C15, second twin (wiring P): "from then on the same input produces the same state as on a new
+/// screen" - a new screen behind a NEW parser. Whenever a RIS happens at a moment at which the
+/// reference recogniser and decoder say the stream reader is in its ground state with nothing
+/// pending (always true right after a parser-fed ESC c; for an embedder reset() only between
+/// sequences), a fresh front end + Screen::new(current size) is started and fed the rest of the
+/// trace in parallel. One parser driving two screens (the first twin) cannot see state that
+/// survives RIS *outside* the screen: a decoder tail, a recogniser cache.
+fn fresh_parser_twin(trace: &Trace, cov: &mut Coverage) -> Result<(), Violation> {
+    use crate::exec::FrontEnd;
+    use crate::spec::recog::{Recog, RefDecoder, St};
+    use crate::trace::Front;
+    use std::sync::{Arc, Mutex};
+    let s1 = Arc::new(Mutex::new(Screen::new(trace.columns, trace.lines)));
+    let mut fe1 = FrontEnd::new(trace.front, trace.utf8, s1.clone());
+    let mut leg2: Option<(FrontEnd<Screen>, Arc<Mutex<Screen>>)> = None;
+    let mut rf = Recog::new(trace.utf8);
+    let mut dec = RefDecoder::default();
+    let mut seen_events = 0usize;
+    let (mut prev_a, mut prev_b): (Option<Snapshot>, Option<Snapshot>) = (None, None);
+    // "leading BOM ignored": a brand-new byte decoder may swallow a U+FEFF that is the first
+    // thing it sees, the running one must not - that one difference is not judged
+    let mut fresh_first_text = false;
+    let poisoned = || Violation::new("C15", "C15/poisoned", "listener mutex poisoned", 0);
+    for (si, step) in trace.steps.iter().enumerate() {
+        let mut start_fresh = false;
+        match step {
+            Step::Feed(b) => {
+                exec::set_current_op("feed");
+                fe1.feed(b);
+                if let Some((fe2, _)) = leg2.as_mut() {
+                    fe2.feed(b);
+                }
+                exec::set_current_op("");
+                let text: String = match (trace.front, rf.utf8) {
+                    (Front::Chars, _) => String::from_utf8_lossy(b).into_owned(),
+                    (Front::Bytes, true) => dec.feed(b),
+                    (Front::Bytes, false) => b.iter().map(|x| *x as char).collect(),
+                };
+                if fresh_first_text && !text.is_empty() {
+                    fresh_first_text = false;
+                    if trace.front == Front::Bytes && rf.utf8 && text.starts_with('\u{feff}') {
+                        cov.hit("lenient_leading_bom");
+                        leg2 = None;
+                    }
+                }
+                rf.feed_str(&text);
+                if rf.stopped_at.is_some() {
+                    cov.hit("stop_fresh_twin_unspecified_grammar");
+                    return Ok(());
+                }
+                let new_events = &rf.events[seen_events.min(rf.events.len())..];
+                if new_events.iter().any(|e| *e == Op::RestoreCursor) {
+                    leg2 = None; // DECRC in the continuation: the statement excludes it
+                }
+                if b.as_slice() == b"\x1bc"
+                    && rf.st == St::Ground
+                    && dec.pending.is_empty()
+                    && rf.events.last() == Some(&Op::Reset)
+                    && rf.events.len() > seen_events
+                {
+                    start_fresh = true;
+                }
+                seen_events = rf.events.len();
+            }
+            Step::Charset(c) => {
+                if !dec.pending.is_empty() {
+                    cov.hit("stop_fresh_twin_switch_with_pending_tail");
+                    return Ok(());
+                }
+                fe1.charset(c);
+                if let Some((fe2, _)) = leg2.as_mut() {
+                    fe2.charset(c);
+                }
+                match c.as_str() {
+                    "@" => rf.utf8 = false,
+                    "G" | "8" => rf.utf8 = true,
+                    _ => {}
+                }
+            }
+            Step::Apply(_) => {}
+            other => {
+                let op = match other {
+                    Step::Paint => Op::Paint,
+                    Step::Display => Op::Display,
+                    Step::Resize(l, c) => Op::Resize(Some(*l), Some(*c)),
+                    Step::Api(op) => op.clone(),
+                    _ => unreachable!(),
+                };
+                let low = op.lower();
+                exec::set_current_op(low.name());
+                {
+                    let mut g = s1.lock().map_err(|_| poisoned())?;
+                    op.apply(&mut g);
+                }
+                if let Some((_, s2)) = leg2.as_ref() {
+                    let mut g = s2.lock().map_err(|_| poisoned())?;
+                    op.apply(&mut g);
+                }
+                exec::set_current_op("");
+                if low == Op::RestoreCursor {
+                    leg2 = None;
+                }
+                if low == Op::Reset && rf.st == St::Ground && dec.pending.is_empty() {
+                    start_fresh = true;
+                }
+            }
+        }
+        if start_fresh {
+            let (cols, lines) = {
+                let g = s1.lock().map_err(|_| poisoned())?;
+                (g.columns, g.lines)
+            };
+            let s2 = Arc::new(Mutex::new(Screen::new(cols, lines)));
+            let fe2 = FrontEnd::new(trace.front, rf.utf8, s2.clone());
+            leg2 = Some((fe2, s2));
+            fresh_first_text = true;
+            cov.hit("fresh_parser_twins_started");
+        }
+        if let Some((_, s2)) = leg2.as_ref() {
+            let a = {
+                let g = s1.lock().map_err(|_| poisoned())?;
+                Snapshot::take_from(&g, prev_a.as_ref())
+            };
+            let b = {
+                let g = s2.lock().map_err(|_| poisoned())?;
+                Snapshot::take_from(&g, prev_b.as_ref())
+            };
+            cov.hit("fresh_parser_twin_steps_compared");
+            let d = a.diff(&b, &["savepoints"]);
+            prev_a = Some(a);
+            prev_b = Some(b);
+            if let Some(d) = d {
+                return Err(Violation::new(
+                    "C15",
+                    "C15/fresh_parser_twin_diverges",
+                    format!(
+                        "after RIS the same input must produce the same state as a new screen behind a new parser; after step {} ({}): {} (left: real, right: new parser + new screen)",
+                        si,
+                        match step {
+                            Step::Feed(b) => format!("feed {:02x?}", &b[..b.len().min(16)]),
+                            o => format!("{:?}", o),
+                        },
+                        d
+                    ),
+                    si as u64,
+                ));
+            }
+        }
+    }
+    Ok(())
 }
 
 // ======================================================================================= C17
@@ -704,14 +891,16 @@ impl Property for C17 {
         p.renderer_pct = 100;
         p.corrupt_pct = 25;
         p.kinds = [30, 25, 35, 3, 5, 2];
+        p.wiring_p_pct = 30;
         let mut t = gen::trace("C17", seed, index, &p);
         t.steps.push(Step::Paint);
         t
     }
     fn check(&self, trace: &Trace, cov: &mut Coverage) -> Result<(), Violation> {
         let mut obs = Obs17 { cov, fb: Vec::new(), pre: None };
-        let stats = exec::run_q(trace, &mut obs).map(|x| x.0)?;
+        let stats = exec::run(trace, &mut obs)?;
         common_cov(cov, &stats);
+        cov.hit(if trace.wiring == crate::trace::Wiring::P { "runs_wiring_p" } else { "runs_wiring_q" });
         Ok(())
     }
 }
